@@ -137,7 +137,10 @@ func c18SetConfig() { pioconfig.SetProvenanceConfig(c18Stake, 1) }
 // c18Bootstrap builds the shared genesis: a chain is set up with funded accounts, the state that
 // only governance can create (markets, root names, message fees, sanctions, sanction params) is
 // written through the keepers, and the result is exported.
-func c18Bootstrap(t *testing.T) c18Genesis {
+func c18Bootstrap(t *testing.T) c18Genesis { return c18BootstrapWith(t, nil) }
+
+// c18BootstrapWith: extra (if not nil) writes further keeper-level state before the export.
+func c18BootstrapWith(t *testing.T, extra func(app *simapp.App, ctx sdk.Context, accts []c18Acct) error) c18Genesis {
 	c18SetConfig()
 	accts := c18Accts()
 	var gen []authtypes.GenesisAccount
@@ -182,6 +185,9 @@ func c18Bootstrap(t *testing.T) c18Genesis {
 		ImmediateSanctionMinDeposit:   sdk.NewCoins(sdk.NewInt64Coin(c18Stake, 1000)),
 		ImmediateUnsanctionMinDeposit: sdk.NewCoins(sdk.NewInt64Coin(c18Stake, 1000))}), "sanction params")
 	must(app.SanctionKeeper.SanctionAddresses(ctx, accts[8].addr), "sanction")
+	if extra != nil {
+		must(extra(app, ctx, accts), "extra state")
+	}
 	ctx.MultiStore().(storetypes.CacheMultiStore).Write()
 	if _, err := app.Commit(); err != nil {
 		t.Fatalf("bootstrap commit: %v", err)
